@@ -164,15 +164,35 @@ def check_case(ctx, case):
                         kw['separator_insertion'] = 'r'
                     elif si == 'none':
                         kw['separator_insertion'] = None
+                    # the documented optional arguments are descriptive metadata: the numbers must not depend on them
+                    wkw = {}
+                    meta = case.get('meta')
+                    if meta:
+                        enss = sorted(set(n.split('|')[0] for o in obs for n in o.names if n not in o.covobs))
+                        wkw = {'spec': 'dobs v1.0', 'origin': 'somewhere', 'symbol': ['sym%d' % i for i in range(len(obs))], 'who': 'me'}
+                        if meta == 'enstags' and enss:
+                            wkw['enstags'] = {enss[0]: 'tag_' + enss[0]}
+                        kw['full_output'] = True
                     if case['via'] == 'string':
-                        s = dio.create_dobs_string(obs, 'nm')
+                        s = dio.create_dobs_string(obs, 'nm', **wkw)
                         got = dio.import_dobs_string(s.encode(), **kw)
                     else:
-                        dio.write_dobs(obs, os.path.join(d, 'f'), 'nm', gz=case['gz'])
+                        dio.write_dobs(obs, os.path.join(d, 'f'), 'nm', gz=case['gz'], **wkw)
                         got = dio.read_dobs(os.path.join(d, 'f'), gz=case['gz'], **kw)
+                    if meta:
+                        if not isinstance(got, dict) or 'obsdata' not in got:
+                            probs.append(('violation', 'full-output', 'full_output=True did not return the documented dictionary'))
+                            return probs
+                        got = got['obsdata']
+                        kw.pop('full_output')
                 else:
-                    dio.write_pobs(obs, os.path.join(d, 'f'), 'nm', gz=case['gz'])
-                    got = dio.read_pobs(os.path.join(d, 'f'), gz=case['gz'], separator_insertion=1)
+                    wkw = {}
+                    if case.get('meta'):
+                        wkw = {'spec': 'x', 'origin': 'somewhere', 'symbol': ['sym%d' % i for i in range(len(obs))], 'enstag': 'tg'}
+                    dio.write_pobs(obs, os.path.join(d, 'f'), 'nm', gz=case['gz'], **wkw)
+                    got = dio.read_pobs(os.path.join(d, 'f'), gz=case['gz'], separator_insertion=1, **({'full_output': True} if case.get('meta') else {}))
+                    if case.get('meta'):
+                        got = got['obsdata']
             except Exception as e:
                 probs.append(('violation', 'roundtrip-exception:' + fmt, '%s: %s' % (type(e).__name__, str(e)[:200])))
                 return probs
@@ -182,7 +202,10 @@ def check_case(ctx, case):
                 def expected_name(n):
                     stored = n.replace('|', '')
                     if si == 'true':
-                        return n
+                        # documented: the separator goes after the ensemble tag written to the file, if that tag is a
+                        # prefix of the stored name (with an alternative enstag it usually is not)
+                        tag = (wkw.get('enstags') or {}).get(n.split('|')[0], n.split('|')[0])
+                        return (stored[:len(tag)] + '|' + stored[len(tag):]) if stored.startswith(tag) else stored
                     if si == 'int':
                         k = kw['separator_insertion']
                         return stored[:k] + '|' + stored[k:]
@@ -267,6 +290,7 @@ def gen_case(ctx):
         case['mean_hit'] = case['data'] == 'count' and rng.random() < 0.15
         if rng.random() < 0.2 and any(v > 1 for v in case['nrep'].values()):
             case['frozen'] = rng.choice([0.0, 1.0, 2.0, -1.0])
+    case['meta'] = rng.choice([None, None, 'plain', 'enstags'])
     return case
 
 
